@@ -446,10 +446,13 @@ def fixed_sizes(repo: Repo, rep, P: str, secs):
                     a = resolve_names(gargs[ai], gdefs)
                     ai += 1
                     t_ = norm(a)
-                    if t_.endswith(".value"):
-                        t_ = t_[:-len(".value")]
-                    if t_.startswith("self."):
-                        at[t_[len("self."):]] = off
+                    # the attribute the packed value is taken from (`self.x`, `self.x.value`, `self.x & 0xFF`, `self.x >> 8`): its first byte
+                    attrs_ = []
+                    for x_ in ast.walk(a):
+                        if isinstance(x_, ast.Attribute) and isinstance(x_.value, ast.Name) and x_.value.id == "self" and x_.attr not in attrs_:
+                            attrs_.append(x_.attr)
+                    if len(attrs_) == 1 and not isinstance(a, ast.IfExp):
+                        at.setdefault(attrs_[0], off)
                     elif off in (3, 6) and t_ != "0":
                         zero_ok = False
                 for b_ in range(off, off + size):
